@@ -466,10 +466,21 @@ def check_global_step(prog: Program, rep, rule: str) -> None:
             if isinstance(n, ast.Call) and (dotted(n.func) or '') in ('setattr', 'globals', 'vars') \
                     and any(isinstance(a, ast.Constant) and a.value == G for a in ast.walk(n)):
                 writers.append((mod, find_func_for_node(prog, mod, n), n))
+    # a read through getattr(module, name) with the name taken from a literal table of the package
+    for mod in prog.modules.values():
+        for cname, entries in mod.assigns.items():
+            for e_ in entries:
+                if e_[1] is None or not any(isinstance(x, ast.Constant) and x.value == G for x in ast.walk(e_[1])):
+                    continue
+                for f in mod.funcs.values():
+                    uses_table = any(isinstance(x, ast.Name) and x.id == cname and isinstance(x.ctx, ast.Load) for x in ast.walk(f.node))
+                    ga = [c for c in ast.walk(f.node) if isinstance(c, ast.Call) and (dotted(c.func) or '') == 'getattr']
+                    if uses_table and ga:
+                        readers.append((mod, f, ga[0]))
     ok_readers = {'get_global_max_calc_step_size', 'create_interface_config'}
     for mod, f, n in readers:
         fq = f.qualname if f else '<module>'
-        if mod is not tci and isinstance(n, ast.Name):
+        if mod is not tci and isinstance(n, ast.Name) and n.id == G:
             rep.fail(rule, mod.path, n.lineno, fq, f'frozen:{fq}',
                      f'{fq} reads `{G}` through a name imported with `from ... import`: that is a copy made when the module '
                      f'was imported, so the global default-step setter never reaches calculators created afterwards')
